@@ -392,6 +392,25 @@ func c10Find(shape string, run int, size func(proto.Message) int, target int, fl
 }
 
 func c10Floor(shape string, run int, size func(proto.Message) int, target, maxK int) (int, int, bool) {
+	if shape == "plain" && target > 1<<16 {
+		// sizes of the plain shape are linear in k once k is large (one byte per character
+		// in both codecs): measure the constant once instead of generating huge messages
+		// at every probe of the search
+		base := size(c10Gen(shape, run, 1<<14, 0)) - 1<<14
+		if base >= 0 && base < 64 && size(c10Gen(shape, run, 1<<15, 0))-1<<15 == base {
+			k := target - base - 2 // the length prefix may still grow by a byte or two
+			for k > 0 && size(c10Gen(shape, run, k, 0)) > target {
+				k--
+			}
+			if k > maxK {
+				return 0, 0, false
+			}
+			for size(c10Gen(shape, run, k+1, 0)) <= target {
+				k++
+			}
+			return k, 0, true
+		}
+	}
 	lo, hi := 0, 1
 	for size(c10Gen(shape, run, hi, 0)) <= target {
 		hi *= 2
